@@ -187,6 +187,21 @@ Proof.
     assert (t / d * d == t) by (field; lra). lra.
 Qed.
 
+(** a crowded pipe: [n] transfers with the same limit [l] that together exceed the throughput each progress at exactly
+    [t / n] - however many they are (one arrival among a hundred changes everybody's share by less than a percent, and by
+    exactly this much); a volume [v] then takes [n * v / t] *)
+Corollary equal_shares t l (n : positive) :
+  0 < t -> 0 < l -> t < inject_Z (Zpos n) * l ->
+  rate_of (Fin t) (inject_Z (Zpos n) * l) l == t / inject_Z (Zpos n).
+Proof.
+  intros Ht Hl Hc.
+  assert (Hn : 0 < inject_Z (Zpos n)) by (unfold Qlt; cbn; lia).
+  rewrite rate_spec; [| lra | nra | lra].
+  rewrite Q.min_r.
+  - field. split; lra.
+  - apply Qle_shift_div_r; [nra|]. nra.
+Qed.
+
 (** * The relation between the windowed and the fluid machine *)
 
 (** what the windowed transfer [x] has moved by time [t]: lump + current window *)
